@@ -38,8 +38,8 @@ type Op struct {
 }
 
 type Task struct {
-	Node  int    `json:"node"`  // node (IDManager / allocator owner) the task runs on
-	Kind  string `json:"kind"`  // client | node | pmap | user | nodeslot
+	Node  int    `json:"node"` // node (IDManager / allocator owner) the task runs on
+	Kind  string `json:"kind"` // client | node | pmap | user | nodeslot
 	Ops   []Op   `json:"ops"`
 	Cands []int  `json:"cands"` // class of the n-th fresh candidate this task presents (then n mod K)
 }
@@ -69,14 +69,14 @@ var idKinds = []string{"client", "node", "pmap", "user"}
 
 type noCAS struct{ s storage.Storage }
 
-func (n noCAS) Set(k string, v any, ttl time.Duration) error     { return n.s.Set(k, v, ttl) }
-func (n noCAS) Get(k string) (any, error)                        { return n.s.Get(k) }
-func (n noCAS) Delete(k string) error                            { return n.s.Delete(k) }
-func (n noCAS) Exists(k string) (bool, error)                    { return n.s.Exists(k) }
-func (n noCAS) SetExpiration(k string, ttl time.Duration) error  { return n.s.SetExpiration(k, ttl) }
-func (n noCAS) GetExpiration(k string) (time.Duration, error)    { return n.s.GetExpiration(k) }
-func (n noCAS) CleanupExpired() error                            { return n.s.CleanupExpired() }
-func (n noCAS) Close() error                                     { return nil }
+func (n noCAS) Set(k string, v any, ttl time.Duration) error    { return n.s.Set(k, v, ttl) }
+func (n noCAS) Get(k string) (any, error)                       { return n.s.Get(k) }
+func (n noCAS) Delete(k string) error                           { return n.s.Delete(k) }
+func (n noCAS) Exists(k string) (bool, error)                   { return n.s.Exists(k) }
+func (n noCAS) SetExpiration(k string, ttl time.Duration) error { return n.s.SetExpiration(k, ttl) }
+func (n noCAS) GetExpiration(k string) (time.Duration, error)   { return n.s.GetExpiration(k) }
+func (n noCAS) CleanupExpired() error                           { return n.s.CleanupExpired() }
+func (n noCAS) Close() error                                    { return nil }
 
 var _ storage.Storage = noCAS{}
 
